@@ -30,14 +30,17 @@ SYMNOTE = ("Trusted: the primitive table of the symbolic evaluator (pst/core/pri
            "testing of the *derived expressions* at random points (persim is never executed). ")
 
 CHECKS.update({
-    "C01": (True, "symbolic abstract interpretation to normal forms (cost-matrix blocks, tiling for all sizes) + CFG/def-use "
-                  "site rules on the threshold search",
+    "C01": (True, "symbolic abstract interpretation to normal forms (cost-matrix blocks, tiling for all sizes), edge relation of the "
+                  "threshold graph as membership predicates, the search followed on bounded candidate lists with a feasibility "
+                  "oracle, + CFG/def-use site rules on the threshold search",
             CLAUSE + "Decides BN-COST, BN-TILE (slice stores, paired index-array diagonal stores, pre-filled base with explicit "
             "corner), BN-GRAPH (the graph handed to the matching library is {(r, c): D[r, c] <= d} cell by cell — sets of columns "
             "are membership predicates, compared with the thresholded matrix on sizes up to 3+3 with d at / between / below the "
             "entries), BN-FILTER/WARN, BN-THRESH, BN-PERFECT, BN-BISECT, BN-ORDER, BN-EMPTY: the "
             "augmented matrix is the statement's cost model for every size, and the search's structural invariants hold. "
-            "Declines: optimality of binary search + Hopcroft-Karp, float ties.",
+            "BN-SEARCH (BOUNDED): with the candidate thresholds replaced by a list of n <= 6 (thorough 9) ordered symbols and the "
+            "matching library by a monotone feasibility oracle, the search — whatever its shape — returns the smallest feasible "
+            "candidate for every n and every position of it. Declines: that Hopcroft-Karp finds a maximum matching, float ties.",
             SYMNOTE + "Hopcroft-Karp returns a maximum matching (dict with both directions).", "DESIGN.md §4 C01"),
     "C02": (True, "symbolic abstract interpretation to normal forms (rotation constants folded, blocks, solver wiring)",
             CLAUSE + "Decides WS-COST, WS-TILE, WS-FILTER/WARN, WS-SOLVE, WS-EMPTY. Declines: optimality of the Hungarian "
@@ -139,13 +142,18 @@ CHECKS.update({
 })
 
 CHECKS.update({
-    "C03": (True, "ownership analysis of the worklist + normal forms of every emitted critical point over typed bar symbols + "
+    "C03": (True, "abstract interpretation of the sweep over the finite domain of end-point orderings (bounded number of bars) + "
+                  "ownership analysis of the worklist + normal forms of every emitted critical point over typed bar symbols + "
                   "site rules (copy-of-a-depth, mutate-while-iterating) on the helper-inlined view + symbolic execution of "
                   "the constructor for the degree selection",
-            CLAUSE + "Decides LX-COPY, LX-SORT, LX-EDGE, LX-NOCOPY, LX-ITER, LX-DEG — necessary conditions of the sweep. The "
+            CLAUSE + "Decides LX-COPY, LX-SORT, LX-EDGE, LX-NOCOPY, LX-ITER, LX-DEG, LX-INSERT — necessary conditions of the sweep — and, "
+            "BOUNDED, LX-SWEEP: for every weak ordering of the end-points of up to 3 bars (423 classes; plus 200 / thorough 1500 "
+            "sampled classes of 4 bars) the sweep is followed with all its comparisons decided by the class and the critical "
+            "pairs it emits are the k-th largest tent at every depth (classes in which the repeated-bar shortcut runs are "
+            "reported under known finding K1c). The "
             "repeated-bar shortcut violates LX-NOCOPY/LX-ITER today: genuine, test-pinned defect, listed as known findings "
-            "K1a/K1b (any other violation of the same rules is still reported). Declines: that cases I/II/III reproduce the "
-            "k-th largest tent for every input.",
+            "K1a/K1b/K1c (any other violation of the same rules is still reported). Declines: diagrams with more bars than the "
+            "bound.",
             "Trusted: the Bubenik-Dlotko sweep is the algorithm implemented (a re-implementation yields exit 2, not a "
             "violation); bars have positive length.", "DESIGN.md §4 C03, §5 K1"),
 })
